@@ -39,11 +39,12 @@ def subsets(xs, nonempty=False):
 
 def mkprog(name, tasks, files, ncontents=2, init=None, reqsets=None, failsets=None):
     names = [t["name"] for t in tasks]
+    et = next((t["name"] for t in tasks if t["lit"] or t["glob"]), names[0])
     return {"name": name, "tasks": tasks, "files": files, "ncontents": ncontents,
             "init": init or {f: 0 for f in files},
             "reqsets": reqsets or subsets(names, True), "failsets": failsets or subsets(names),
             # one task whose first command cannot be run at all (the runner returns an error instead of an exit status)
-            "errsets": [[next((t["name"] for t in tasks if t["lit"] or t["glob"]), names[0])]],
+            "errsets": [[et]], "errfail": [["!" + et]], "errpairs": [["!" + et, et]],
             "crash": False, "tear": [], "reps": 2, "maxstates": 40000}
 
 
